@@ -184,6 +184,7 @@ class ShardResult:
         self.stderr = ""
         self.ubsan = set()
         self.reports = []    # sanitizer report blocks (tsan / msan)
+        self.sites = set()   # allocation call sites at which a fault was injected
 
 
 _UBSAN_RE = re.compile(r"^(\S+?):(\d+):\d+: runtime error: (.*)$", re.M)
@@ -210,6 +211,8 @@ def _parse(out, err, res):
             res.digests[k] = v
         elif line.startswith("SAMPLE "):
             res.samples.append(line[7:])
+        elif line.startswith("SITE "):
+            res.sites.add(line.split()[1])
         elif line.startswith("DONE "):
             res.done = int(line.split("=")[1])
     _parse_race_reports(err, res)
